@@ -160,6 +160,7 @@ Proof. vm_compute. repeat split. Qed.
 (* The narrower literal types (RenumberFit.v): the code hands every new code to L::from_code with a truncating cast; the
    model uses unbounded codes.  For every odd bound maxc (all Lit::MAX_CODE are 2^k - 1) on the literals of the graph, a
    run that returns a circuit never produces a code above maxc, so the cast never truncates. *)
+From stdpp Require Import gmap.
 From Flussab Require Import RenumberFit.
 Theorem C12_result_codes_fit_the_literal_type : forall cfg a o r maxc,
   renumber_aig cfg a = RnOk o r ->
